@@ -66,6 +66,22 @@ class Spec:
         self.default = default
 
 
+def spec_default(x):
+    """Documented default of a spec: the number itself (duck-typed spec) or,
+    for a ControlSpec [minval, maxval, default], its default, minval when
+    the default is None."""
+    if isinstance(x, list):
+        return x[0] if x[2] is None else x[2]
+    return x
+
+
+def make_spec(x):
+    if isinstance(x, list):
+        from sc3.synth.spec import ControlSpec
+        return ControlSpec(x[0], x[1], default=x[2])
+    return Spec(x)
+
+
 # --- reference layout ------------------------------------------------------------
 
 class Layout:
@@ -85,7 +101,7 @@ class Layout:
         if not p['has_default'] or d is None:
             specs = self.case.get('specs') or {}
             if p['name'] in specs:
-                d = specs[p['name']]
+                d = spec_default(specs[p['name']])
             else:
                 d = 0.0
         return d
@@ -204,7 +220,7 @@ def run_case(case, v):
     fn, lay = make_funcs(case, received)
     kwargs = {}
     if case.get('specs'):
-        kwargs['metadata'] = {'specs': {k: Spec(x)
+        kwargs['metadata'] = {'specs': {k: make_spec(x)
                                         for k, x in case['specs'].items()}}
     if case.get('variants'):
         kwargs['variants'] = case['variants']
@@ -461,7 +477,14 @@ def cases(draw, max_params=12, big=False):
         # are also given to parameters with explicit (also zero/False)
         # defaults, which must win
         if draw(st.integers(0, 2)) == 0:
-            specs[p['name']] = draw(st.sampled_from(NUMS))
+            if draw(st.booleans()):
+                specs[p['name']] = draw(st.sampled_from(NUMS))
+            else:
+                # a real ControlSpec: [minval, maxval, default | None]
+                lo, hi = draw(st.sampled_from(
+                    [[-1, 1], [0, 1], [20, 20000], [-20, 20], [0.5, 2]]))
+                specs[p['name']] = [lo, hi, draw(st.sampled_from(
+                    [None, 0, 0.0, lo, hi, 1]))]
     if specs:
         case['specs'] = specs
     if allp and draw(st.integers(0, 2)) == 0:
